@@ -146,6 +146,9 @@ func (h264dp *h264Depacketizer) depacketizeFuA(packet *Packet) (err error) {
 
 	if (fuHeader>>7)&1 == 1 { // 第一个分片包
 		h264dp.fragments = h264dp.fragments[:0]
+	} else if len(h264dp.fragments) == 0 {
+		// 没有起始分片（之前丢包或乱序已放弃该单元）：后续分片不能被当作新单元的开头，否则会输出拼接/截断的 NAL
+		return
 	}
 	if len(h264dp.fragments) != 0 &&
 		h264dp.fragments[len(h264dp.fragments)-1].SequenceNumber != packet.SequenceNumber-1 {
